@@ -224,7 +224,7 @@ def extract_jobs(tab, quick):
     jobs = []
     for (mname, topo) in meshes(tab, quick):
         nc = topo.cnt[topo.D]
-        for nranks in range(1, min(nc, 3 if quick else 4) + 1):
+        for nranks in range(1, min(nc, 3 if (quick or nc > 4) else 4) + 1):
             # split the assignment space: the ranks of the first cells are fixed per job, the rest is symbolic
             nfix = max(0, nc - (2 if quick else 3)) if nranks > 1 else nc
             for fixed in itertools.product(range(nranks), repeat=nfix):
@@ -346,7 +346,7 @@ def main():
     only = os.environ.get('C12_ONLY')
     if only:
         jobs = [j for j in jobs if only in j[0]]
-    chk.bounds.append('E3: %d small meshes (quad grids 2x2 / 3x1, vertex-contact configuration, triangle fan, 2x2x1 hexahedra, tetrahedra chain%s); 1..%d ranks; EVERY cell-to-rank assignment without empty patch (symbolic, decided by solver-guided forking; incl. disconnected patches and patches touching in one vertex); one joint refinement; Parti2Lvl for 1..%d cells of every shape with symbolic rank count <= %d' % (len(meshes(tab, quick)), '' if quick else '; thorough: 3x2, 3x2x1, four tetrahedra', 3 if quick else 4, 4 if quick else 7, 48 if quick else 64))
+    chk.bounds.append('E3: %d small meshes (quad grids 2x2 / 3x1, vertex-contact configuration, triangle fan, 2x2x1 hexahedra, tetrahedra chain%s); 1..%d ranks (at most 3 for meshes with more than 4 cells); EVERY cell-to-rank assignment without empty patch (symbolic, decided by solver-guided forking; incl. disconnected patches and patches touching in one vertex); one joint refinement; Parti2Lvl for 1..%d cells of every shape with symbolic rank count <= %d' % (len(meshes(tab, quick)), '' if quick else '; thorough: 3x2, 3x2x1, four tetrahedra', 3 if quick else 4, 4 if quick else 7, 48 if quick else 64))
     chk.assume('single process: every rank\'s extract_patch is executed in turn on its own copy of the base mesh node; MPI distribution of the base mesh, PartiDomainControl, PartiIterative / external partitioners, PatchHaloSplitter and PatchMeshPartSplitter (mesh parts other than halos), recursive (hierarchical) partitioning are outside',
                'fine entities are identified across patches by the coordinates of their vertices (x_v = 2^v, generic position)')
     return e3run.run_jobs(chk, mod, native, jobs, info, quick, SIGS, 'c12',
